@@ -162,12 +162,12 @@ pub fn assemble_with(pki: &Pki, c: &Value, content: &[u8]) -> (Vec<u8>, String) 
     let mut sid = ski_of(pki, "e0");
     if g("sid") == "bad" { sid[19] ^= 1; }
     let (t0, t2) = (time_of(0), time_of(2));
-    let (nb, na) = match g("eetime") { "expired" => (time_of(-3), time_of(0)), "notyet" => (time_of(2), time_of(4)), _ => (t0, t2) };
+    let (nb, na) = match g("eetime") { "expired" => (time_of(-3), time_of(0)), "notyet" => (time_of(2), time_of(4)), "inverted" => (t2, t0), _ => (t0, t2) };
     let peer = "k0";
     let other = "k1";
     let ee = id_ee_cert(pki, "e0", if g("eesig") == "peer" { peer } else { other }, peer, nb, na, g("eeca"),
                         match g("eeaki") { "peer" => Some(peer), "other" => Some(other), _ => None }, EE_SERIAL);
-    let (this, next) = match g("crltime") { "stale" => (time_of(-3), time_of(0)), "future" => (time_of(2), time_of(4)), _ => (t0, t2) };
+    let (this, next) = match g("crltime") { "stale" => (time_of(-3), time_of(0)), "future" => (time_of(2), time_of(4)), "inverted" => (t2, t0), _ => (t0, t2) };
     let revoked: Vec<u64> = match g("revoked") {
         "other" => vec![OTHER_SERIAL], "ee" => vec![EE_SERIAL], "other_ee" => vec![OTHER_SERIAL, EE_SERIAL],
         "ee_other" => vec![EE_SERIAL, OTHER_SERIAL], "big_ee" => vec![BIG_SERIAL, OTHER_SERIAL, EE_SERIAL], _ => vec![],
@@ -289,6 +289,14 @@ pub fn replay(args: &[String]) {
                 }
                 if back.validate_at(&pki.pubkey("k1"), time_of(1)).is_ok() {
                     return Err(("created:otherkey".into(), "library-created message validates under another key".into()));
+                }
+            }
+            // a validity with its ends the wrong way round contains no instant: such a message validates at no time
+            let inv = SignedMessage::create(Bytes::copy_from_slice(content), Validity::new(time_of(2), time_of(0)), &pki.key("k0"), &pki.signer).map_err(|e| ("created".to_string(), e.to_string()))?;
+            let inv_back = SignedMessage::decode(inv.to_captured().into_bytes(), false).map_err(|e| ("created:decode".to_string(), e.to_string()))?;
+            for t in [time_of(0), time_of(1), time_of(2)] {
+                if inv.validate_at(&pki.pubkey("k0"), t).is_ok() || inv_back.validate_at(&pki.pubkey("k0"), t).is_ok() {
+                    return Err(("created:window".into(), format!("a library-created message whose validity runs backwards validates at {t:?}")));
                 }
             }
         }
